@@ -219,5 +219,22 @@ def gen_ops(rng, tier, ctx=None):
         f = rng.choice([rng.getrandbits(52), rng.getrandbits(52) >> rng.randrange(52) << rng.randrange(30), rng.choice(F)]) & ((1 << 52) - 1)
         yield "mpq_set_d %s %s %x" % (hx(q0[0]), hx(q0[1]), dbl(rng.getrandbits(1), e, f))
 
+    # set_f: low zero limbs, odd/even low limb, radix point right of / inside / left of the limbs
+    for _ in range(800 * N):
+        n = rng.randrange(1, 7)
+        l = rand_limbs(rng, n, rng.choice(["uniform", "runs", "sparse", "onebit", "top", "ones"]))
+        for i in range(rng.choice([0, 0, 1, 2, n - 1])):
+            if i < n - 1: l[i] = 0
+        if l[-1] == 0: l[-1] = rng.getrandbits(64) | 1
+        k = next(i for i, x in enumerate(l) if x)
+        r = rng.random()
+        if r < 0.3: l[k] |= 1
+        elif r < 0.6: l[k] = ((l[k] >> rng.randrange(1, 64) << rng.randrange(1, 64)) & M) or (1 << rng.randrange(1, 64))
+        if l[-1] == 0: l[-1] = 1
+        e = rng.choice([n, n + 1, n + 3, n - 1, n - k, n - k - 1, 1, 0, -1, -3, rng.randrange(-6, 10)])
+        q0 = rand_q(rng, tier, "small")
+        yield "mpq_set_f %s %s %s %s %s" % (hx(q0[0]), hx(q0[1]), rng.choice(["1", "-1"]), vec(l), hx(e))
+    yield "mpq_set_f 3 2 1 [] 0"
+
 def nontrivial(line):
     return line if line.startswith("mpq_") else None
